@@ -529,9 +529,10 @@ class Splicer:
             while n < len(s) - 12:
                 tx = [toks[s[n + d]].text for d in range(12)]
                 # let & mut ( ref A , ref mut B ) = E ;   |   let & mut ( ref mut A , ref mut B ) = E ;
-                if tx[0] == "let" and tx[1] == "&" and tx[2] == "mut" and tx[3] == "(" and tx[4] == "ref":
-                    close = rs.match_close(toks, s[n + 3])
-                    inner = rs.norm(toks, s[n + 3] + 1, close).split(" , ")
+                off = 3 if tx[2] == "mut" else 2
+                if tx[0] == "let" and tx[1] == "&" and tx[off] == "(" and tx[off + 1] == "ref":
+                    close = rs.match_close(toks, s[n + off])
+                    inner = rs.norm(toks, s[n + off] + 1, close).split(" , ")
                     m = re.match(r"^ref (mut )?([a-z_0-9]+)$", inner[0])
                     m2 = re.match(r"^ref (mut )?([a-z_0-9]+)$", inner[1]) if len(inner) == 2 else None
                     if m and m2:
@@ -561,7 +562,26 @@ class Splicer:
                 continue
             tag = " //@ %s %s" % (gh.name, ",".join(gh.props))
             text = "".join("%s%s\n" % (l, tag) for l in gh.text.rstrip("\n").split("\n"))
-            if gh.where == "before":
+            if gh.where == "before-stmt":
+                # walk back to the start of the statement that contains the anchor
+                k, depth = pos[0] - 1, 0
+                start = pos[0]
+                while k > body_lo:
+                    tt = toks[k]
+                    if tt.kind == "punct":
+                        if tt.text in rs.CLOSE:
+                            depth += 1
+                        elif tt.text in rs.OPEN:
+                            if depth == 0:
+                                break
+                            depth -= 1
+                        elif tt.text == ";" and depth == 0:
+                            break
+                    if tt.kind not in ("ws", "comment", "doc"):
+                        start = k
+                    k -= 1
+                self.insert_before(start, text + "                ")
+            elif gh.where == "before":
                 self.insert_before(pos[0], text + "                ")
             else:
                 self.insert_after(pos[1], "\n" + text)
@@ -671,6 +691,8 @@ def process_file(sp, fspec, g):
         end_line = line_of(toks[it.hi - 1].start)
         ext = fs.external if fs else None
         g.raw("\n//@fn %s %s:%d-%d%s\n" % (key, fspec.path, start_line, end_line, " external" if ext else ""))
+        if fs and fs.stake:
+            g.raw("//@stake %s\n" % ",".join(fs.stake))
         if ext:
             g.raw("#[verifier::external_body]\n")
             g.meta["external"].append({"fn": key, "why": ext})
@@ -688,7 +710,7 @@ def process_file(sp, fspec, g):
                                     "clauses": (len(fs.clauses) + sum(len(l.clauses) for l in fs.loops) +
                                                 sum(len(c.clauses) for c in fs.closures) + len(fs.ghosts)) if fs else 0,
                                     "contract": bool(fs and (fs.clauses or fs.loops or fs.closures or fs.ghosts)),
-                                    "external": bool(ext)})
+                                    "external": bool(ext), "stake": list(fs.stake) if fs else []})
 
     def wanted_keep(it):
         head = rs.norm(toks, it.head_lo, it.body_lo if it.body_lo else it.hi)
